@@ -44,14 +44,14 @@ ASSUMES = ["SegmentSize < 2^31 (int32 option)",
 RULE = ("one case = one operation sequence of 30-65 ops on a fresh WAL: segment size from {64,96,128,256,1024,65536}, record sizes aimed "
         "at ending on / one before / one after the segment end, truncation targets at segment firsts/lasts/first offset/-1/beyond last, "
         "trims with cutoff around entry timestamps and commit offsets around segment boundaries/first/last/-1, reopen anywhere, "
-        "forward/reverse reads every few ops; non-trivial = every generated sequence (all contain rollovers), distinct by full op list")
+        "process lifetimes chained in one sequence (op r = clean Close+reopen, op R = crash: the directory is copied as it is, no Close, and the run continues on the copy; chains clean restart -> small synced appends / truncate in the same segment -> crash -> first append of the next lifetime forced to roll over), forward/reverse reads every few ops; non-trivial = every generated sequence (all contain rollovers), distinct by full op list")
 LEGS = [
-    {"name": "wal", "harness": "wal", "model": "wal", "n_quick": 1500, "n_thorough": 150000,
+    {"name": "wal", "harness": "wal", "model": "wal", "n_quick": 1000, "n_thorough": 150000,
      "corpus": "corpus/wal", "timeout": 900, "timeout_thorough": 3000},
     # crash points inside the multi-step file operations (rollover, cross-segment truncate, clear, trim, close,
     # index write): directory copies taken from hooks inside the calls, a WAL reopened on every distinct copy and
     # judged against the list (spec verdicts only, no model)
-    {"name": "walcrash", "harness": "wal", "model": None, "n_quick": 120, "n_thorough": 20000,
+    {"name": "walcrash", "harness": "wal", "model": None, "n_quick": 70, "n_thorough": 20000,
      "args": ["-mode", "crash"], "corpus": "corpus/wal", "timeout": 900, "timeout_thorough": 3000},
 ]
 REGISTERED = True
